@@ -1026,7 +1026,7 @@ func (c *Ctx) c6Mesh(nv int, special int) c6Mesh {
 		na = 1
 	}
 	if na == 0 {
-		m.idx = nil // a mesh without vertex data cannot have (well-formed) indices
+		c.Note("mesh.no-attributes") // indices but no vertex data: skipped by AddMesh since fd26630
 	}
 	for k := 0; k < na && nv > 0; k++ {
 		name := c6Names[perm[k]]
@@ -1062,8 +1062,25 @@ func (c *Ctx) c6Mesh(nv int, special int) c6Mesh {
 	for _, a := range m.attrs {
 		has = has || a.dim >= 2
 	}
-	if !has {
-		m.idx = nil // only Float1 attributes: AddMesh would write a primitive without attributes (see notes/C06.md)
+	if !has && len(m.attrs) > 0 {
+		c.Note("mesh.only-float1") // only Float1 attributes: skipped by AddMesh since fd26630
+	}
+	if has && nv > 0 && nv < 1000 && c.Rng.Intn(25) == 0 {
+		// two vector attributes stored under one glTF name (Float3 + Float4 "Color" -> COLOR_0): rejected since fd26630
+		for _, dim := range []int{3, 4} {
+			dup := false
+			for _, a := range m.attrs {
+				dup = dup || (a.name == "Color" && a.dim == dim)
+			}
+			if !dup {
+				a := c6Attr{name: "Color", dim: dim, data: make([]float64, nv*dim)}
+				for i := range a.data {
+					a.data[i] = c.c6Float()
+				}
+				m.attrs = append(m.attrs, a)
+			}
+		}
+		c.Note("mesh.colliding-names")
 	}
 	return m
 }
